@@ -186,7 +186,8 @@ def c05(pid, tier, seed):
     chk.rule = ("(a) fold of the real merge() over all permutations and all prefixes of sets of single-type file texts (real export_to_string outputs "
                 "of the types sharing a file in the fixed universe + seeded synthetic texts: doc blocks, multi-line bodies, prefix names, "
                 "overlapping imports) against a reference composition built from swc-parsed parts; (b) real T::export() in every order and every "
-                "prefix per shared file, plus re-export; (c) barrier-released concurrent exports with seeded sleeps at the probe points, event-log "
+                "prefix per shared file (several instantiations of a generic member taking turns; shared files that do not end in `.ts`), plus re-export, "
+                "plus: nothing declared in a file is imported into it, declarations in identifier order; (c) barrier-released concurrent exports with seeded sleeps at the probe points, event-log "
                 "mutual-exclusion invariant and final-bytes comparison; thorough: part (c) again under Miri (12 processes, seeded preemptive scheduler, "
                 "undefined-behaviour / data-race / deadlock detection) and, with the `format` feature, every order of real exports per shared file "
                 "(no error or panic, the file parses, declares each type once, is the same for every order). distinct_nontrivial = distinct (part, file-or-synthetic class signature, "
@@ -362,7 +363,8 @@ def c17(pid, tier, seed):
     chk = C.Check(pid, tier, seed, level="fault_enumeration")
     chk.rule = ("seeded histories of 1..3 (thorough 1..4) export calls over the fixed universe with one obstacle injected before one step "
                 "{target path is a directory, an ancestor is a regular file, a dependency's target is a directory, directory with more `..` than "
-                "the cwd depth, non-exportable root, a shared file written earlier in the history replaced by a directory}, removed before retrying that step. Oracle: the faulted call returns Err (no panic, registry "
+                "the cwd depth, non-exportable root (primitives, containers, maps, tuples, ranges), a shared file written earlier in the history replaced by a directory, or emptied / cut off by "
+                "something else}, removed before retrying that step. Oracle: the faulted call returns Err (for the emptied file it may also succeed by starting the file again) - no panic, registry "
                 "mutex not poisoned), files outside the call's target set are untouched, nothing is recorded for the failed write, the retry "
                 "succeeds and the final tree equals the fault-free run of the same history. distinct_nontrivial = distinct (configuration, "
                 "obstacle kind @ position, entry-point sequence, faulted type)")
@@ -405,7 +407,7 @@ def c12(pid, tier, seed):
                 "build offline (chrono, bigdecimal, uuid, bson, bytes, url, indexmap, ordered-float, heapless, semver, smol_str, serde_json, "
                 "tokio), composed to depth 2 (thorough: 3) over user leaf types. Oracle: serde_json output of every listed value is a member "
                 "of name() and inline(); inhabitants of name() (strings of parsed formats taken from real samples) deserialize and "
-                "re-serialize into the type; documented kind per keyword; visit_generics reports exactly the user types among the arguments. "
+                "re-serialize into the type; documented kind per keyword; inline() names none of the arguments; visit_generics reports exactly the user types among the arguments. "
                 "distinct_nontrivial = table entries with >= 1 oracle evaluation")
     chk.assumptions = ["serde's `rc` feature is enabled in the harness so Rc/Arc/Weak serialize", "arrays longer than 32 have no serde impl: name only"]
     try:
